@@ -70,12 +70,13 @@ static void stub_pbkdf2(int tag, const uint8_t* pw, size_t pwlen, const uint8_t*
         for (size_t i = 0; i < pwlen; ++i) sink ^= pw[i];
         for (size_t i = 0; i < saltlen; ++i) sink ^= salt[i];
     }
-    if (w->kdf_mode == 1) {
+    if (w->kdf_nowrite_above && keylen > w->kdf_nowrite_above) { /* recorded only */ }
+    else if (w->kdf_mode == 1) {
         for (size_t i = 0; i < keylen; ++i) key[i] = w->kdf_mask[i % 32];
     } else {
         pv_kdf_mix(pw, pwlen, salt, saltlen, iterations, key, keylen);
     }
-    if (r) memcpy(r->key_written, key, keylen < sizeof r->key_written ? keylen : sizeof r->key_written);
+    if (r && !(w->kdf_nowrite_above && keylen > w->kdf_nowrite_above)) memcpy(r->key_written, key, keylen < sizeof r->key_written ? keylen : sizeof r->key_written);
     if (w->kdf_protect && keylen) {
         /* the key lives in a page owned by the driver; any later access by the library faults */
         uintptr_t a = (uintptr_t)key & ~(uintptr_t)(page_size() - 1);
